@@ -42,8 +42,9 @@ func ExpandAndReturnIndexNames(indexPattern string, allVirtualTableNames map[str
 	if strings.Contains(indexPattern, "*") {
 		startLimiter := "^"
 		endLimiter := "$"
-		indexPattern = startLimiter + indexPattern + endLimiter
-		indexRegExp, err := regexp.Compile(strings.ReplaceAll(indexPattern, "*", `.*`))
+		// only "*" is a wildcard; every other character of the pattern stands for itself
+		indexPattern = startLimiter + strings.ReplaceAll(regexp.QuoteMeta(indexPattern), `\*`, `.*`) + endLimiter
+		indexRegExp, err := regexp.Compile(indexPattern)
 		if err != nil {
 			log.Infof("ExpandAndReturnIndexNames: Error compiling match: %v", err)
 			return indicesEntries, aliasesEntries, err
